@@ -8,6 +8,11 @@ use std::collections::HashMap;
 
 use serde_json::{json, Value};
 
+/// Root of the framework (`/verif` as registered; a snapshot run sets VERIF_ROOT to its own copy).
+pub fn verif_root() -> String {
+    std::env::var("VERIF_ROOT").unwrap_or_else(|_| "/verif".to_string())
+}
+
 fn args_map(args: &[String]) -> HashMap<String, String> {
     let mut m = HashMap::new();
     let mut i = 0;
